@@ -22,7 +22,7 @@ RULE = ("random operation histories (length <= 12, thorough <= 16) over a pool o
         "overriding __radd__; operations: constructors, copy, +, 0+s, s+0, sum, *, reflected *, /, *=, /=, "
         "with_times, shift, FunctionSignal.filter_frequencies / set_buffers, and composite steps that filter (and buffer) a "
         "function-backed signal and add it to a sampled signal on the same grid in either order, or re-grid the SAME object "
-        "repeatedly onto grids of equal length and end points (once more after an in-place scaling); array arguments as "
+        "repeatedly onto grids of equal length and end points (once more after an in-place scaling); generating functions as plain functions, stateful callable objects or functools.partial; array arguments as "
         "ndarray / list / tuple, value types as name / Enum member / int, scale factors as Python or numpy scalars or 0-d "
         "arrays incl. 1, 0.1 and division by 3; a step is non-trivial when "
         "it creates or mutates an object (errors and refusals are counted separately); distinct = "
@@ -35,7 +35,11 @@ LEVEL_NOTE = ("Assumed: numpy array allocation/copy semantics (np.array copies, 
               "np.concatenate allocates), np.interp = piecewise linear on non-decreasing grids, CPython "
               "binary-operator dispatch and copy.deepcopy of lists of numbers/functions.  Signal.resample, "
               "envelope, spectrum and FFT filtering of sampled signals (C05) are outside the model; "
-              "function-backed signals are evaluated for a pool of nine functions (four of them accept scalar times only and raise TypeError / ValueError on arrays, so that the one-at-a-time fallback of FunctionSignal.values is exercised) and scalar-gain filters.  "
+              "function-backed signals are built from plain functions, from stateful callable objects (a template with amplitude / "
+              "table attributes) and from functools.partial over a mutable parameter list - a new object per signal, in the "
+              "initial state equal to a pool function; the Lean step model sees only the pool code (function identity and "
+              "state are carried by the small model Sig.deepcopyFns and by the poke oracle, which edits every function "
+              "object in place and watches all other signals); they are evaluated for a pool of nine functions (four of them accept scalar times only and raise TypeError / ValueError on arrays, so that the one-at-a-time fallback of FunctionSignal.values is exercised) and scalar-gain filters.  "
               "Arrays hold float64 values and are handed over as ndarray, list or tuple; value types as name, Enum member or int; "
               "scale factors as Python int/float, numpy float64/int64 scalar or 0-d array "
               "(integer / float32 dtype arrays make `*=`/`+=` with a float raise or round and are excluded).  "
@@ -132,12 +136,50 @@ def env():
         if isinstance(f, np.ndarray):
             raise ValueError("scalar only")
         return 1.0
+    import functools
+
+    class Template:
+        """a STATEFUL callable object used as signal function: amplitude * base(t) + table[0]; in its initial state
+        (amplitude 1, table[0] 0) it evaluates exactly like the pool function `base`"""
+
+        def __init__(self, base):
+            self.base = base
+            self.amplitude = 1.0
+            self.table = [0.0, 1.0]
+
+        def __call__(self, t):
+            return self.amplitude * self.base(t) + self.table[0]
+
+    def param_fn(params, base, t):      # for functools.partial(param_fn, [amplitude, offset], base)
+        return params[0] * base(t) + params[1]
+    _cache.update(Template=Template, param_fn=param_fn, partial=functools.partial)
     _cache.update(np=np, S=S, UserSig=UserSig, UserFunc=UserFunc,
                   fns=[f0, f1, f2, f3, f4, f5, f6, f7, f8], gains=[g0, g1, g2, g3],
                   gainv=[0.5, 2.0, -1.0, 1.0])
     _cache["clsname"] = {S.Signal: "signal", S.EmptySignal: "empty", S.FunctionSignal: "func",
                          S.GaussianNoise: "gauss", UserSig: "userSig", UserFunc: "userFunc"}
     return _cache
+
+
+def fn_parts(f):
+    """(pool code, amplitude, offset, mutable state objects) of a signal function: a plain pool function, a
+    Template instance or a functools.partial over a parameter list"""
+    E = env()
+    if isinstance(f, E["Template"]):
+        return E["fns"].index(f.base), f.amplitude, f.table[0], [f]
+    if isinstance(f, E["partial"]):
+        return E["fns"].index(f.args[1]), f.args[0][0], f.args[0][1], [f.args[0]]
+    return E["fns"].index(f), 1.0, 0.0, []
+
+
+def fn_sig(f):
+    """state signature of a signal function (identity for plain functions, content for stateful callables)"""
+    E = env()
+    if isinstance(f, E["Template"]):
+        return ("Template", E["fns"].index(f.base), f.amplitude, tuple(f.table))
+    if isinstance(f, E["partial"]):
+        return ("partial", E["fns"].index(f.args[1]), tuple(f.args[0]))
+    return ("plain", id(f))
 
 
 def frac(x):
@@ -234,7 +276,7 @@ class Impl:
             o = {"cls": E["clsname"].get(type(s), "?" + type(s).__name__), "vt": vt_name(s),
                  "times": [frac(x) for x in s.times], "values": self.values_of(s)}
             if isinstance(s, E["S"].FunctionSignal):
-                o["fns"] = [E["fns"].index(f) for f in s._functions]
+                o["fns"] = [fn_parts(f)[0] for f in s._functions]
                 o["t0s"] = [frac(x) for x in s._t0s]
                 o["facs"] = [frac(x) for x in s._factors]
                 o["bufs"] = [[frac(x) for x in b] for b in s._buffers]
@@ -337,7 +379,12 @@ class Impl:
         if k == "mkFunc":
             cls, t, fn, vt = op[1:]
             c = {"func": S.FunctionSignal, "userFunc": E["UserFunc"]}[cls]
-            return self.guarded(lambda: c(self.form(self.exts[t]), E["fns"][fn], self.vt_form(vt)))
+            # the generating function as a plain function, as a stateful callable OBJECT or as a functools.partial
+            # over a mutable parameter list (a new object per signal; deterministic in the position in the history)
+            sel = (len(self.objs) + 2 * len(self.exts)) % 3
+            base = E["fns"][fn]
+            func = base if sel == 0 else (E["Template"](base) if sel == 1 else E["partial"](E["param_fn"], [1.0, 0.0], base))
+            return self.guarded(lambda: c(self.form(self.exts[t]), func, self.vt_form(vt)))
         if k == "copy":
             return self.guarded(lambda: self.objs[op[1]].copy())
         if k == "add":
@@ -834,6 +881,8 @@ def reach_objects(s):
                 ("_factors", s._factors), ("_filters", s._filters)]
         out += [("_buffers[%d]" % i, b) for i, b in enumerate(s._buffers)]
         out += [("_filters[%d]" % i, b) for i, b in enumerate(s._filters)]
+        for i, f in enumerate(s._functions):      # the mutable state of a stateful generating function
+            out += [("function object _functions[%d]" % i, o) for o in fn_parts(f)[3]]
     else:
         out.append(("values", s.values))
     return out
@@ -846,7 +895,7 @@ def deep_state(im):
     for k, s in enumerate(im.objs):
         ent = [type(s).__name__, vt_name(s), tuple(s.times.tolist())]
         if isinstance(s, S.FunctionSignal):
-            ent += [tuple(id(f) for f in s._functions), tuple(s._t0s), tuple(tuple(b) for b in s._buffers),
+            ent += [tuple(fn_sig(f) for f in s._functions), tuple(s._t0s), tuple(tuple(b) for b in s._buffers),
                     tuple(s._factors), tuple(tuple(id(f[0]) if isinstance(f, tuple) else f for f in g) for g in s._filters)]
         else:
             ent.append(tuple(s.values.tolist()))
@@ -866,6 +915,15 @@ def poke(obj):
 
         def undo():
             obj[...] = saved
+        return undo
+    if isinstance(obj, env()["Template"]):          # a stateful callable: change its attributes in place
+        saved_amp, saved_tab = obj.amplitude, list(obj.table)
+        obj.amplitude = obj.amplitude * 3.0 + 1.0
+        obj.table[0] += 0.5
+
+        def undo():
+            obj.amplitude = saved_amp
+            obj.table[:] = saved_tab
         return undo
     saved = list(obj)
     obj.append("poked")
@@ -901,11 +959,12 @@ def fn_direct(s, times):
         g = Fraction(1)
         for (h, _) in filt:
             g *= Fraction(E["gainv"][E["gains"].index(h)])
-        code = E["fns"].index(f)
+        code, amp, off, _ = fn_parts(f)
         for i, t in enumerate(times):
             u = Fraction(float(t)) - Fraction(float(t0))
             v = [u, u * u, Fraction(1), 2 * u + 1, abs(u), Fraction(1 if u >= 0 else 0),
                  abs(u) + 2 * u, (-2 * u if u < 0 else u * u), (3 * u + 1 if u >= 0 else 1 - u)][code]
+            v = Fraction(float(amp)) * v + Fraction(float(off))
             tot[i] += v * Fraction(float(fac)) * g
     return tot
 
